@@ -116,6 +116,8 @@ def r13_2(ctx, rep, roles, nl):
                            "a value is published / previous_live_nodes updated on a path that does not compare it with the current live "
                            "map as a whole", where(nl.fn), sample="before the comparison: nothing published")
             continue
+        if row.exit == "backedge" and not sends and not wprev and not any(e[1] == nl.keep["garbage_collect"] for e in row.calls()):
+            continue        # body of a loop between the comparison and the publication (e.g. the published map filled by a for loop)
         n += 1
         changed = (cmpc[1][1] == "Ne") == cmpc[2]
         seen.add(changed)
@@ -201,7 +203,8 @@ def check_sent(rep, nl, eng, row, cur, NSF):
         inner = sent[2][0] if ok else None
         ok = ok and inner[0] == "call" and inner[1].split("::")[-1] in ("flat_map", "filter_map")
         if not ok:
-            rep.obligation(False, "C13/R13.3/sent-shape", "the published value is %s" % sym.fmt(sent)[:100], where(nl.fn))
+            if not loop_built_sent(rep, nl, eng, row, cur, NSF, sent):
+                rep.obligation(False, "C13/R13.3/sent-shape", "the published value is %s" % sym.fmt(sent)[:100], where(nl.fn))
             continue
         base2, clo2 = inner[2][0], inner[2][1]
         rep.obligation(any(s == cur or (s[0] == "ptr" and T.resolve_locals(eng, row.store, s) == cur) for s in T.subterms(base2)) or
@@ -232,6 +235,59 @@ def check_sent(rep, nl, eng, row, cur, NSF):
                     s[0] == "call" and s[1] == NSF for s in T.subterms(v))
                 rep.obligation(vok, "C13/R13.3/sent-value", "published value is not a clone of the member's current state", where(nl.fn),
                                sample="value = node_state.clone()")
+
+
+def loop_built_sent(rep, nl, eng, row, cur, NSF, sent):
+    """the published map when a for loop over the keys of the compared map fills it: an entry is inserted iff the member has a
+    state and the configured predicate (if any) accepts it; key = the id, value = a clone of the current state"""
+    fresh = None
+    for x in T.subterms(sent):
+        if x[0] == "call" and not x[1].startswith(("havoc:", "fold:")) and sym.strip_all_generics(x[1]).split("::")[-1] in ("new", "default") and "BTreeMap" in x[1]:
+            fresh = (x[1], x[3])
+    if fresh is None:
+        return False
+    n_rows = 0
+    ok_all = True
+    for r, adds in T.collection_items(eng, nl.rows):
+        nxt = [c for c in r.cond if c[0] == "variant" and c[3] and c[2] == "Some" and c[1][0] == "call" and c[1][1].endswith("::next")]
+        if not nxt:
+            continue
+        it = T.resolve_locals(eng, r.store, nxt[-1][1])
+        if not (any(x == cur for x in T.subterms(it)) and any(x[0] == "call" and sym.strip_all_generics(x[1]).split("::")[-1] == "keys" for x in T.subterms(it))):
+            continue        # another loop
+        n_rows += 1
+        present = pred = predval = None
+        for c in r.cond:
+            if c[0] == "variant" and c[1][0] == "call" and c[1][1] == NSF and c[3]:
+                present = c[2] == "Some"
+            if c[0] == "variant" and T.last_field(c[1]) == ("configuration::ChitchatConfig", "extra_liveness_predicate") and c[3]:
+                pred = c[2] == "Some"
+            t = c[1]
+            if c[0] == "truth":
+                pol = c[2]
+                if t[0] == "un" and t[1] == "Not":
+                    t, pol = t[2], not pol
+                if t[0] == "call" and "Fn" in t[1]:
+                    predval = pol
+        mine = []
+        for e in r.calls():
+            if sym.strip_all_generics(e[1]).split("::")[-1] == "insert" and "BTreeMap" in e[1]:
+                recv = T.resolve_locals(eng, r.store, e[2][0])
+                if any(x[0] == "call" and (x[1], x[3]) == fresh for x in T.subterms(recv)):
+                    mine.append((T.resolve_locals(eng, r.store, e[2][1]), T.resolve_locals(eng, r.store, e[2][2])))
+        want = present is True and (pred is False or (pred is True and predval is True))
+        rep.obligation((len(mine) == 1) == want and len(mine) <= 1 and present is not None, "C13/R13.3/sent-filter",
+                       "entry published=%s when state present=%s, predicate configured=%s, predicate value=%s" % (bool(mine), present, pred, predval),
+                       where(nl.fn), sample="present=%s predicate=%s/%s -> %s" % (present, pred, predval, "listed" if want else "dropped"))
+        ok_all = ok_all and ((len(mine) == 1) == want)
+        for k, v in mine:
+            from_keys = any(x == cur for x in T.subterms(k))
+            rep.obligation(from_keys, "C13/R13.3/sent-key", "published under key %s" % sym.fmt(k)[:60], where(nl.fn))
+            vok = (v[0] == "agg" and v[1] == NS or T.mentions_field(v, "std::option::Option", "0")) and any(x[0] == "call" and x[1] == NSF for x in T.subterms(v))
+            rep.obligation(vok, "C13/R13.3/sent-value", "published value is not a clone of the member's current state", where(nl.fn),
+                           sample="value = node_state.clone()")
+            ok_all = ok_all and from_keys and vok
+    return ok_all and n_rows > 0
 
 
 def loop_built_current(rep, nl, eng, row, cur, LN, NSF):
